@@ -4,7 +4,7 @@
 For every seeded/<id>/patch_<n>.diff: a scratch copy of the /repo working tree (src + tests) is made outside /repo and /verif, the patch is
 applied, then  (1) the demonstration script must print VIOLATED (exit 1) on the patched copy,  (2) optionally the repository's full test
 suite must still pass,  (3) ./check <id> --src-root <copy>/src must exit 1 with a VIOLATION line.  Results go to seeded/results.json.
-usage: seeded.py [--only C05[,C06]] [--suite] [--repo]      (--repo: apply with `git -C /repo apply` instead of a scratch copy)"""
+usage: seeded.py [--only C05[,C06]] [--nums 7,8,9] [--results FILE] [--merge FILE...] [--suite] [--repo]      (--repo: apply with `git -C /repo apply` instead of a scratch copy)"""
 import glob
 import json
 import os
@@ -30,6 +30,15 @@ def main():
     suite = '--suite' in sys.argv
     in_repo = '--repo' in sys.argv
     res_path = os.path.join(VERIF, 'seeded', 'results.json')
+    if '--results' in sys.argv:          # separate result file (parallel runs over different properties; merge with --merge)
+        res_path = sys.argv[sys.argv.index('--results') + 1]
+    nums = set(sys.argv[sys.argv.index('--nums') + 1].split(',')) if '--nums' in sys.argv else None
+    if '--merge' in sys.argv:
+        merged = json.load(open(os.path.join(VERIF, 'seeded', 'results.json')))
+        for f in sys.argv[sys.argv.index('--merge') + 1:]:
+            merged.update(json.load(open(f)))
+        json.dump(merged, open(os.path.join(VERIF, 'seeded', 'results.json'), 'w'), indent=1, sort_keys=True)
+        return
     results = json.load(open(res_path)) if os.path.exists(res_path) else {}
     for pdir in sorted(glob.glob(os.path.join(VERIF, 'seeded', 'C*'))):
         pid = os.path.basename(pdir)
@@ -37,6 +46,8 @@ def main():
             continue
         for patch in sorted(glob.glob(os.path.join(pdir, 'patch_*.diff'))):
             n = re.search(r'patch_(\d+)\.diff', patch).group(1)
+            if nums and n not in nums:
+                continue
             key = f'{pid}/{n}'
             demo = os.path.join(pdir, f'demo_{n}.py')
             meta = json.load(open(os.path.join(pdir, f'meta_{n}.json'))) if os.path.exists(os.path.join(pdir, f'meta_{n}.json')) else {}
